@@ -7,10 +7,17 @@ Everything observable is recorded per step / per segment so that the flows can b
 (bytes sent, controller trace, controller arrays, shared memory, builder bookkeeping) and the
 bookkeeping can be compared with the Lean model (`tpl.run`).
 
-program = {"cfg": {"nv","transp","maxq"}, "segs": [{"body": [step...], "pre": {name: value} | None}]}
-step    = new | gate h g | rot h axis n d | gate2 h h2 | meas h mode inplace | array len
+program = {"cfg": {"nv","transp","maxq"}, "events": [event...]}
+event   = new | gate h g | rot h axis n d | gate2 h h2 | meas h mode inplace | array len
           (n = int or {"t": name}; mode = "array" | "reg")
-The connection is closed at the end (closing flush).
+        | flush | compile vals | commit
+`compile` pre-compiles the pending operations (flow D: flushes them); `commit` instantiates the
+OLDEST compiled-but-uncommitted subroutine with its values and commits it (flow D: nothing).
+Operations may be built between a compile and its commit and several compiled subroutines may
+be outstanding; an ordinary flush only occurs while nothing is outstanding (otherwise the
+controller would legitimately see the subroutines in a different order).
+The connection is closed at the end (closing flush).  `segs_to_events` converts the older
+segment form [{"body": [...], "pre": vals | None}] (compile immediately followed by commit).
 """
 from harness.pipeline import PipelineConnection, TraceExecutor, reset_globals
 
@@ -72,10 +79,48 @@ def controller_state(conn, ex):
             "unit": ex.allocated_virtual(conn.app_id) if conn.app_id in ex._qubit_unit_modules else None}
 
 
+BUILD_KINDS = ("new", "gate", "rot", "gate2", "meas", "array")
+
+
+def segs_to_events(segs):
+    evs = []
+    for seg in segs:
+        evs.extend(dict(st) for st in seg["body"])
+        if seg["pre"] is None:
+            evs.append({"k": "flush"})
+        else:
+            evs.append({"k": "compile", "vals": dict(seg["pre"])})
+            evs.append({"k": "commit"})
+    return evs
+
+
+def next_vals(events, i):
+    """template values that apply to the operation built at position i: those of the next
+    compile, None if the next terminator is a flush (or there is none)"""
+    for e in events[i:]:
+        if e["k"] == "compile":
+            return e["vals"]
+        if e["k"] == "flush":
+            return None
+    return None
+
+
+def handle_state(handles):
+    out = []
+    for q in handles:
+        try:
+            out.append([int(q.qubit_id), bool(q.active)])
+        except Exception as e:  # noqa: BLE001
+            out.append("error:" + type(e).__name__)
+    return out
+
+
 def run_flow(prog, flow, outcomes):
-    """Returns {"steps": [[per step {"bk", "delta", "inplace_rewrite"}]...], "segs": [...], "close": {...},
-    "futures": [...], "error": str|None}"""
+    """Returns {"events": [per event record], "protos": [...], "close": {...}, "futures": [...],
+    "msgs": [hex...], "error": str|None}.  Per event: bk (bookkeeping), handles, delta/rewrite
+    (pending commands added / modified in place), nmsgs, outstanding, ntrace, state."""
     cfg = prog["cfg"]
+    events = prog["events"]
     reset_globals()
     ex = TraceExecutor(name="alice", outcomes=list(outcomes))
     kw = {}
@@ -84,67 +129,77 @@ def run_flow(prog, flow, outcomes):
     if cfg["transp"]:
         kw["compiler"] = NVSubroutineTranspiler
     conn = PipelineConnection("alice", executor=ex, max_qubits=cfg["maxq"], **kw)
+    n_init = len(conn.messages)
     captured = []
+    cur_vals = [None]
     orig = conn.builder.subrt_compile_subroutine
 
     def wrapped(ps):
-        captured.append(render_cmds(ps.commands))
+        r = render_cmds(ps.commands)
+        captured.append(r if cur_vals[0] is None else subst_rendered(r, cur_vals[0]))
         return orig(ps)
 
     conn.builder.subrt_compile_subroutine = wrapped
     handles = []
     futures = []
-    rec = {"steps": [], "segs": [], "close": None, "futures": None, "error": None}
-
-    def seg_record(n_msgs_before, n_cap_before, n_trace_before):
-        return {"proto": captured[n_cap_before:] and captured[-1] or None,
-                "bytes": [m.hex() for m in conn.messages[n_msgs_before:]],
-                "trace": [list(t) for t in ex.trace[n_trace_before:]],
-                "state": controller_state(conn, ex),
-                "bk": bookkeeping(conn)}
-
+    outstanding = []
+    rec = {"events": [], "protos": captured, "close": None, "futures": None, "msgs": None, "error": None}
     try:
-        for seg in prog["segs"]:
-            vals = seg["pre"]
-            steps = []
-            for st in seg["body"]:
-                k = st["k"]
-                before = render_cmds(conn.builder._pending_commands)
-                if k == "new":
-                    handles.append(Qubit(conn))
-                elif k == "gate":
-                    getattr(handles[st["h"]], GATES1[st["g"] % len(GATES1)])()
-                elif k == "rot":
-                    n = st["n"]
-                    if isinstance(n, dict):
-                        n = Template(n["t"]) if flow == "P" else vals[n["t"]]
-                    getattr(handles[st["h"]], "rot_" + st["axis"])(n=n, d=st["d"])
-                elif k == "gate2":
-                    handles[st["h"]].cnot(handles[st["h2"]])
-                elif k == "meas":
-                    futures.append(handles[st["h"]].measure(inplace=st["inplace"],
-                                                            store_array=(st["mode"] == "array")))
-                elif k == "array":
-                    conn.new_array(st["len"])
-                else:
-                    raise KeyError(k)
-                after = render_cmds(conn.builder._pending_commands)
-                rewritten = after[:len(before)] != before
-                steps.append({"bk": bookkeeping(conn), "delta": after[len(before):], "rewrite": rewritten,
-                              "pending": after})
-            rec["steps"].append(steps)
-            nm, nc, nt = len(conn.messages), len(captured), len(ex.trace)
-            if vals is not None and flow == "P":
-                sub = conn.compile()
-                if sub is not None:
-                    sub.instantiate(conn.app_id, dict(vals))
-                    conn.commit_subroutine(sub)
-            else:
+        for i, st in enumerate(events):
+            k = st["k"]
+            before = render_cmds(conn.builder._pending_commands)
+            note = None
+            if k == "new":
+                handles.append(Qubit(conn))
+            elif k == "gate":
+                getattr(handles[st["h"]], GATES1[st["g"] % len(GATES1)])()
+            elif k == "rot":
+                n = st["n"]
+                if isinstance(n, dict):
+                    n = Template(n["t"]) if flow == "P" else next_vals(events, i)[n["t"]]
+                getattr(handles[st["h"]], "rot_" + st["axis"])(n=n, d=st["d"])
+            elif k == "gate2":
+                handles[st["h"]].cnot(handles[st["h2"]])
+            elif k == "meas":
+                futures.append(handles[st["h"]].measure(inplace=st["inplace"],
+                                                        store_array=(st["mode"] == "array")))
+            elif k == "array":
+                conn.new_array(st["len"])
+            elif k == "flush":
                 conn.flush()
-            rec["segs"].append(seg_record(nm, nc, nt))
-        nm, nc, nt = len(conn.messages), len(captured), len(ex.trace)
+            elif k == "compile":
+                if flow == "P":
+                    cur_vals[0] = st["vals"]
+                    try:
+                        sub = conn.compile()
+                    finally:
+                        cur_vals[0] = None
+                    if sub is not None:
+                        outstanding.append((sub, st["vals"]))
+                else:
+                    conn.flush()
+            elif k == "commit":
+                if flow == "P":
+                    if outstanding:
+                        sub, vals = outstanding.pop(0)
+                        sub.instantiate(conn.app_id, dict(vals))
+                        conn.commit_subroutine(sub)
+                    else:
+                        note = "nothing to commit"
+            else:
+                raise KeyError(k)
+            r = {"bk": bookkeeping(conn), "handles": handle_state(handles), "nmsgs": len(conn.messages) - n_init,
+                 "outstanding": len(outstanding), "ntrace": len(ex.trace), "state": controller_state(conn, ex),
+                 "note": note}
+            if k in BUILD_KINDS:
+                after = render_cmds(conn.builder._pending_commands)
+                r["rewrite"] = after[:len(before)] != before
+                r["delta"] = after[len(before):]
+            rec["events"].append(r)
         conn.close()
-        rec["close"] = seg_record(nm, nc, nt)
+        rec["close"] = {"bk": bookkeeping(conn), "state": controller_state(conn, ex), "handles": handle_state(handles)}
+        rec["msgs"] = [m.hex() for m in conn.messages[n_init:]]
+        rec["trace"] = [list(t) for t in ex.trace]
         vals_out = []
         for f in futures:
             try:
@@ -154,25 +209,28 @@ def run_flow(prog, flow, outcomes):
         rec["futures"] = vals_out
     except Exception as e:  # noqa: BLE001
         rec["error"] = type(e).__name__ + ": " + str(e)[:120]
+        rec["msgs"] = [m.hex() for m in conn.messages[n_init:]]
+        rec["trace"] = [list(t) for t in ex.trace]
     return rec
 
 
 def model_request(prog, recP):
-    """`tpl.run` request built from the program and the pending-command deltas of flow P"""
-    segs = []
-    for seg, steps in zip(prog["segs"], recP["steps"]):
-        body = []
-        for st, r in zip(seg["body"], steps):
-            if st["k"] == "array":
-                body.append({"k": "array", "len": st["len"]})
-            elif st["k"] == "meas":
-                body.append({"k": "meas", "m": st["mode"], "cs": r["delta"]})
-            else:
-                body.append({"k": "cmds", "cs": r["delta"]})
-        segs.append({"body": body, "pre": None if seg["pre"] is None else
-                     [[k, v] for k, v in sorted(seg["pre"].items())]})
-    segs.append({"body": [], "pre": None})  # the closing flush
-    return {"op": "tpl.run", "segs": segs}
+    """`tpl.hist` request built from the program and the pending-command deltas of flow P"""
+    evs = []
+    for st, r in zip(prog["events"], recP["events"]):
+        k = st["k"]
+        if k == "array":
+            evs.append({"k": "build", "op": {"k": "array", "len": st["len"]}})
+        elif k == "meas":
+            evs.append({"k": "build", "op": {"k": "meas", "m": st["mode"], "cs": r["delta"]}})
+        elif k in BUILD_KINDS:
+            evs.append({"k": "build", "op": {"k": "cmds", "cs": r["delta"]}})
+        elif k == "compile":
+            evs.append({"k": "compile", "pre": [[a, b] for a, b in sorted(st["vals"].items())]})
+        else:
+            evs.append({"k": k})
+    evs.append({"k": "flush"})  # the closing flush
+    return {"op": "tpl.hist", "events": evs}
 
 
 def random_program(rng, thorough=False):
@@ -181,14 +239,20 @@ def random_program(rng, thorough=False):
         cfg["transp"] = True
     limit = cfg["maxq"] - (1 if cfg["nv"] else 0)
     alive = []  # per handle
-    segs = []
+    events = []
     tcount = 0
-    for _ in range(rng.randint(1, 4)):
-        pre = rng.random() < 0.65
+    outstanding = 0
+    interleave = rng.random() < 0.6  # build operations between compile and commit
+    for _ in range(rng.randint(1, 5)):
+        pre = rng.random() < 0.65 or outstanding > 0
         vals = {} if pre else None
-        body = []
         regs_used = 0
-        for _ in range(rng.randint(0, 7)):
+        nbuilt = 0
+        for _ in range(rng.randint(0 if not pre else 1, 7)):
+            # commits of older subroutines may come at any point while the next block is built
+            if outstanding and interleave and rng.random() < 0.25:
+                events.append({"k": "commit"})
+                outstanding -= 1
             lv = [i for i, a in enumerate(alive) if a]
             ch = ["array"]
             if len(lv) < limit:
@@ -198,11 +262,12 @@ def random_program(rng, thorough=False):
             if len(lv) >= 2 and not cfg["transp"]:
                 ch += ["gate2"]
             k = rng.choice(ch)
+            nbuilt += 1
             if k == "new":
-                body.append({"k": "new"})
+                events.append({"k": "new"})
                 alive.append(True)
             elif k == "gate":
-                body.append({"k": "gate", "h": rng.choice(lv), "g": rng.randrange(7)})
+                events.append({"k": "gate", "h": rng.choice(lv), "g": rng.randrange(7)})
             elif k == "rot":
                 if pre and rng.random() < 0.75:
                     if vals and rng.random() < 0.2:
@@ -214,11 +279,11 @@ def random_program(rng, thorough=False):
                     n = {"t": name}
                 else:
                     n = rng.randrange(256)
-                body.append({"k": "rot", "h": rng.choice(lv), "axis": rng.choice("XYZ"), "n": n,
-                             "d": rng.randrange(0, 8)})
+                events.append({"k": "rot", "h": rng.choice(lv), "axis": rng.choice("XYZ"), "n": n,
+                               "d": rng.randrange(0, 8)})
             elif k == "gate2":
                 a, b = rng.sample(lv, 2)
-                body.append({"k": "gate2", "h": a, "h2": b})
+                events.append({"k": "gate2", "h": a, "h2": b})
             elif k == "meas":
                 h = rng.choice(lv)
                 mode = rng.choice(["array", "array", "reg"])
@@ -227,10 +292,23 @@ def random_program(rng, thorough=False):
                     if regs_used > 14:
                         mode = "array"
                 ip = rng.random() < 0.25
-                body.append({"k": "meas", "h": h, "mode": mode, "inplace": ip})
+                events.append({"k": "meas", "h": h, "mode": mode, "inplace": ip})
                 if not ip:
                     alive[h] = False
             elif k == "array":
-                body.append({"k": "array", "len": rng.randint(1, 3)})
-        segs.append({"body": body, "pre": vals})
-    return {"cfg": cfg, "segs": segs}
+                events.append({"k": "array", "len": rng.randint(1, 3)})
+        if pre:
+            if nbuilt == 0:
+                continue
+            events.append({"k": "compile", "vals": vals})
+            outstanding += 1
+            if not interleave or rng.random() < 0.35:
+                while outstanding:
+                    events.append({"k": "commit"})
+                    outstanding -= 1
+        else:
+            events.append({"k": "flush"})
+    while outstanding:
+        events.append({"k": "commit"})
+        outstanding -= 1
+    return {"cfg": cfg, "events": events}
